@@ -453,8 +453,17 @@ func TestC05OversizeHeaders(t *testing.T) {
 		method := rapid.SampledFrom([]byte{ref.MethodNone, ref.MethodLZ4, ref.MethodZSTD}).Draw(rt, "method")
 		body := rapid.SliceOfN(rapid.Byte(), 0, 64).Draw(rt, "body")
 		frame := ref.SealFrame(method, body, uint32(len(body)))
-		which := rapid.IntRange(0, 2).Draw(rt, "field")
+		which := rapid.IntRange(0, 3).Draw(rt, "field")
 		switch which {
+		case 3:
+			// The third size field of a ZSTD frame: the content size inside the zstd frame header,
+			// beyond the limit while both ClickHouse size fields are small and consistent.
+			fcs := rapid.SampledFrom([]uint64{128<<20 + 1, 129 << 20, 256 << 20, 1 << 30, 1 << 32, 1 << 40}).Draw(rt, "zstd-content-size")
+			z := []byte{0x28, 0xb5, 0x2f, 0xfd, 0xc0, 0x00} // magic, descriptor (8-byte content size, window descriptor follows), 1 KiB window
+			z = binary.LittleEndian.AppendUint64(z, fcs)
+			z = append(z, 0x01, 0x00, 0x00) // last block, raw, empty
+			method = ref.MethodZSTD
+			frame = ref.SealFrame(method, z, uint32(rapid.SampledFrom([]int{0, 1, 100, 4096}).Draw(rt, "datasize")))
 		case 0: // uncompressed size beyond 128 MiB
 			v := rapid.OneOf(rapid.Uint32Range(128<<20+1, 1<<31), rapid.Uint32Range(1<<31, 1<<32-1)).Draw(rt, "datasize")
 			binary.LittleEndian.PutUint32(frame[21:], v)
